@@ -8,14 +8,23 @@ the executable forms of the property predicates on the *observed* answer (`FAIL 
 
   cfg auth=configfile|admintoken admin=<hex> testbed=0|1 key=<n>
   role <name> none=<P,P|-> any=<P,P|-> res=<handle>:<P+P|->;…|-
-  user <hexname> role=<name> hpw=<hex> hname=<hex> salt=<n>
+  user <hexname> role=<name> hpw=<hex> hname=<hex> salt=<n> [hsalt=<n>] [stored=<form>]
+      the stored `password_hash` is the hash term (hpw, hname, hsalt or else salt) – or, with `stored=<form>`
+      (bang, empty, trunc, plus1, upper, nonhex64: that hash mangled), a `junk` string
   unix <sysuser> <role>
   norm <hexraw> <hexnorm>
   foreign F<n> key=<k> user=<hex> role=<name>
   req <idx> <METHOD> segs=<s/s/…|-> tr=tcp|unix:<peer> auth=<a> [all=<h,h|->] => status=<n> [token=T<k> id=<hex> role=<r>] [list=<h,h|->] [actor=<s>] [effect=none|changed]
+
+`auth=near:<base>:<variant>` is a member of the neighbourhood (`KM.Http.NearMiss`) of a genuine
+credential: `base` = `adm` (the admin token: the model builds the header text and parses it with
+`getBearerToken`) or a token name (`T1`: the text is random, the model uses `NearMiss.same`, which is
+`getBearerToken` on every text by `KM.Props.C20.near_miss_same_iff`); `variant` = `pre:<k|h|m1|m2>`,
+`ext:c|sp|ws`, `chg:0|mid|last`, `case`, `ws:lead|trail|both|tab`, `empty`.
 -/
 import KrillModel.Http.Serve
 import KrillModel.Http.Spec
+import KrillModel.Http.Bearer
 import KrillModel.Drivers.Util
 namespace KM.Drv.Http
 open KM.Generated KM.Http KM.Drv
@@ -80,6 +89,39 @@ def parseWire (st : St) (s : String) : Option Wire :=
     | _ => none
   else st.tokens.lookup s
 
+/-- The near miss a variant word stands for; `t` is the text of the credential if the model knows it
+(the harness uses the same rules on the real text). -/
+def parseNear (t : Option (List Char)) (s : String) : Option NearMiss :=
+  let len := (t.map List.length).getD 4
+  let other (i : Nat) : Char :=
+    match t.bind (·[i]?) with
+    | some c => if c == 'x' then 'y' else 'x'
+    | Option.none => 'x'
+  match s.splitOn ":" with
+  | ["pre", k] =>
+    match k with
+    | "h" => some (.pre (len / 2))
+    | "m1" => some (.pre (len - 1))
+    | "m2" => some (.pre (len - 2))
+    | _ => k.toNat?.map .pre
+  | ["ext", "c"] => some (.ext ['x'])
+  | ["ext", "sp"] => some (.ext " and then some".toList)
+  | ["ext", "ws"] => some (.ext [' ', ' '])
+  | ["chg", "0"] => some (.chg 0 (other 0))
+  | ["chg", "mid"] => some (.chg (len / 2) (other (len / 2)))
+  | ["chg", "last"] => some (.chg (len - 1) (other (len - 1)))
+  | ["case"] => some .swapCase
+  | ["ws", "lead"] => some (.pad [' ', ' '] [])
+  | ["ws", "trail"] => some (.pad [] [' ', ' '])
+  | ["ws", "both"] => some (.pad [' '] [' '])
+  | ["ws", "tab"] => some (.pad ['\t'] ['\t'])
+  | ["empty"] => some .empty
+  | _ => Option.none
+
+def nearClass : NearMiss → String
+  | .pre _ => "prefix" | .ext _ => "extension" | .chg _ _ => "changed" | .swapCase => "case"
+  | .pad _ _ => "padded" | .empty => "empty"
+
 inductive AuthDesc where
   | none
   | bearer (w : Wire)
@@ -87,8 +129,30 @@ inductive AuthDesc where
   | unread
   | basic (name pw : String)
 
+/-- `near:<base>:<variant>` → the near miss, and the header the request carries. -/
+def parseNearAuth (st : St) (s : String) : Option (NearMiss × Header) :=
+  match s.splitOn ":" with
+  | "near" :: base :: rest =>
+    let vw := ":".intercalate rest
+    if base == "adm" then
+      let t := st.cfg.adminToken.toList
+      match parseNear (some t) vw with
+      | some v => if v.applies t then some (v, v.header t) else Option.none
+      | Option.none => Option.none
+    else
+      match st.tokens.lookup base, parseNear Option.none vw with
+      | some w, some v =>
+        some (v, if v == .empty then .absent else if v.same then .bearer w else .bearer (.text s))
+      | _, _ => Option.none
+  | _ => Option.none
+
 def parseAuth (st : St) (s : String) : Option AuthDesc :=
   if s == "none" then some .none
+  else if s.startsWith "near:" then
+    (parseNearAuth st s).map fun (_, h) =>
+      match h with
+      | .bearer w => .bearer w
+      | .absent => .unread
   else if s.startsWith "bearer:" then (parseWire st (s.drop 7).toString).map .bearer
   else if s.startsWith "bearerpad:" then (parseWire st (s.drop 10).toString).map .bearer
   else if s.startsWith "unread:" then some .unread
@@ -211,7 +275,7 @@ def loginOracle (st : St) (pw : String) (status : Nat) (ows : List String) : Lis
   | some id =>
     match st.cfg.users.lookup id with
     | some e =>
-      (if e.hash == ⟨st.normF pw, id, e.salt⟩ then [] else ["login_identity"]) ++
+      (if e.hash == .term ⟨st.normF pw, id, e.salt⟩ then [] else ["login_identity"]) ++
       (if kv? ows "role" == some e.role then [] else ["login_role"]) ++
       (match st.cfg.roles.lookup e.role with
        | some r => if r.isAllowed .Login Option.none then [] else ["login_needs_permission"]
@@ -232,6 +296,15 @@ def authKind (a : AuthRes) (ad : AuthDesc) (cfg : Config) : String :=
   | .err, _ => "err"
 
 def fail (kind msg : String) : String := s!"FAIL {kind} {msg}"
+
+/-- The implementation handed out a token for a login the model refuses (reported on the login
+line): the token is what it says it is – a session of this instance for the observed id and role –
+so that the uses of the token that follow in the trace can be judged as what they are. -/
+def unexpectedToken (st : St) (ows : List String) : St :=
+  match kv? ows "token", (kv? ows "id").bind unhex, kv? ows "role" with
+  | some t, some id, some role =>
+    { st with tokens := (t, .sealed true st.cfg.key 1000000 (.session id role)) :: st.tokens }
+  | _, _, _ => st
 
 def stepReq (st : St) (ws ows : List String) : St × String :=
   match ws with
@@ -290,14 +363,18 @@ def stepReq (st : St) (ws ows : List String) : St × String :=
             if status == 401 then (st1, s!"ok login:invalid/{match basic with
               | Option.none => "no-credentials"
               | some (n, _) =>
-                if (st.cfg.users.lookup (st.normF n)).isNone then
+                match st.cfg.users.lookup (st.normF n) with
+                | Option.none =>
                   (if (st.cfg.users.lookup n).isSome then "unknown-normalised-name" else "unknown-name")
-                else "wrong-password"}")
-            else if !orc.isEmpty then (st1, fail "oracle" (" ".intercalate orc))
+                | some e =>
+                  match e.hash with
+                  | .junk _ => "junk-hash"
+                  | .term h => if h.saltName != st.normF n || h.salt != e.salt then "foreign-hash" else "wrong-password"}")
+            else if !orc.isEmpty then (unexpectedToken st1 ows, fail "oracle" (" ".intercalate orc))
             else (st1, fail "model" s!"login expected 401 observed status={status}")
           | .denied =>
             if status == 403 then (st1, "ok login:denied")
-            else if !orc.isEmpty then (st1, fail "oracle" (" ".intercalate orc))
+            else if !orc.isEmpty then (unexpectedToken st1 ows, fail "oracle" (" ".intercalate orc))
             else (st1, fail "model" s!"login expected 403 observed status={status}")
         else if isLoginRow rt then
           -- admin-token provider as primary: the bearer token must be the admin token
@@ -314,7 +391,10 @@ def stepReq (st : St) (ws ows : List String) : St × String :=
           then { st1 with sess := logoutConfigFile st.cfg sess1 ad.header } else st1
         let out := respond st.cfg.testbed a rt segs
         let orc := oracle st a ad rt segs status ows
-        let kind := authKind a ad st.cfg
+        let kind := authKind a ad st.cfg ++
+          (match (kv? rest "auth").bind (parseNearAuth st) with
+           | some (v, _) => s!"/near-{nearClass v}{if v.same then "=same" else ""}"
+           | Option.none => "")
         -- listing and actor as predicted by the model
         let listOk := match kv? ows "list", kv? ows "all" with
           | some l, some all =>
@@ -360,8 +440,16 @@ def step (st : St) (line : String) : St × String :=
     match unhex hname, (kv? rest "hpw").bind unhex, (kv? rest "hname").bind unhex,
           (kv? rest "salt").bind String.toNat?, kv? rest "role" with
     | some n, some pw, some sn, some salt, some role =>
-      ({ st with cfg := { st.cfg with users := st.cfg.users ++ [(n, ⟨⟨pw, sn, salt⟩, salt, role⟩)] } },
-        "ok user:trivial")
+      -- what the configuration file holds as `password_hash`: the text of the hash of (hpw, hname,
+      -- hsalt) – or that text mangled into something that is not the text of any hash
+      let hsalt := ((kv? rest "hsalt").bind String.toNat?).getD salt
+      let stored : StoredHash := match kv? rest "stored" with
+        | some form => if form == "wf" then .term ⟨pw, sn, hsalt⟩ else .junk form
+        | Option.none => .term ⟨pw, sn, hsalt⟩
+      ({ st with cfg := { st.cfg with users := st.cfg.users ++ [(n, ⟨stored, salt, role⟩)] } },
+        match stored with
+        | .junk _ => "ok user:junk-hash"
+        | .term h => if h == ⟨pw, n, salt⟩ then "ok user:trivial" else "ok user:foreign-hash")
     | _, _, _, _, _ => (st, "bad-op user")
   | ["unix", u, r] =>
     ({ st with cfg := { st.cfg with unixUsers := st.cfg.unixUsers ++ [(u, r)] } }, "ok unix:trivial")
